@@ -159,3 +159,6 @@ func Concrete(v int) int { return v }
 
 // ConcreteU64 is Concrete for uint64 values.
 func ConcreteU64(v uint64) uint64 { return v }
+
+// PoolReuse(true) lets the executor explore sync.Pool.Get returning previously Put objects.
+func PoolReuse(on bool) {}
